@@ -33,6 +33,9 @@ for _v in ("OMP_NUM_THREADS", "OPENBLAS_NUM_THREADS", "MKL_NUM_THREADS", "NUMEXP
 
 from .. import core  # noqa: E402
 
+# blockMeshDict files are written below the (git-ignored) lake directory and removed at once; nothing goes to /tmp
+SCRATCH = os.environ.get("C11_SCRATCH", str(core.LEAN / ".lake" / "c11tmp"))
+
 # ----------------------------------------------------------------------------- blockMesh convention (hard-coded)
 BM_FACES = [(0, 1, 2, 3), (4, 5, 6, 7), (0, 3, 7, 4), (1, 2, 6, 5), (0, 1, 5, 4), (3, 2, 6, 7)]
 BM_EDGES = [(0, 1), (3, 2), (7, 6), (4, 5), (0, 3), (1, 2), (5, 6), (4, 7), (0, 4), (1, 5), (2, 6), (3, 7)]
@@ -57,7 +60,7 @@ SKETCH_FACES = {
 TABLE_RINGS = (3, 4, 5, 6, 8, 12)
 TABLE_JOINTS = (2, 3, 4, 5, 6)
 WRITE_TIMEOUT = 40  # seconds per Mesh.write (a hang there is C02's business, reported separately)
-SCRATCH = os.environ.get("C11_SCRATCH", "/work/a11/scratch/c11tmp")
+
 
 
 class WriteTimeout(Exception):
